@@ -38,6 +38,7 @@ TvInit == [absq |-> <<{}>>,        \* memo of the abstract index: absq[k+1] = Ab
            run |-> 0,             \* number of the run (Reset events)
            pending |-> {},        \* files whose Persist is in flight: <<kind, id>>
            mem |-> FALSE,         \* in-memory directory (no durability clauses)
+           openfault |-> FALSE,   \* a directory operation failed (injected) since the last OpenCall and before its OpenReturn
            noasync |-> FALSE,     \* the writer runs without an error callback (the default of the public configuration)
            free |-> FALSE,        \* free-running execution: events of different goroutines that are not ordered by a
                                   \* lock (handle closes vs. removals) may be logged in either order, so the clauses
@@ -127,7 +128,11 @@ GroupOf(e) ==
     [] OTHER -> GAll
 Judge(evClauses) == viol' = (AddViol(evClauses \cup {c \in GroupOf(Ev.ev) : ClauseFails(c)'}))
 
-MemoAbsPrefix(k) == tv.absq[k + 1]
+\* (a snapshot on disk can belong to a longer history than the one the writer recovered, when the writer wrongly
+\*  came up with less: its length is then beyond the ghost history, and no abstract index corresponds to it)
+MemoAbsPrefix(k) == IF k + 1 <= Len(tv.absq) THEN tv.absq[k + 1]
+                    ELSE IF k <= Len(applied) THEN Abs(SubSeq(applied, 1, k))
+                    ELSE {<<"beyond the recovered history", k, 0>>}
 
 Ghosts == <<applied, epochLen, acked, cbAcked, batchOf, retBefore, errd>>
 Unused == <<nextEpoch, nextSeg, nextUid, nextH, cl, pend, cbs, ps, mg, snaps>>
@@ -162,7 +167,7 @@ TReset0 == \* Reset is the first line: Init already holds
 KeepAllBut(changed) == TRUE \* documentation only
 
 \* events that carry no state for the property clauses
-Ignored == {"ListEnd", "ReaderClosed", "CleanupBegin", "CleanupEnd", "PProgress", "MProgress", "CloseStart",
+Ignored == {"ReaderClosed", "CleanupBegin", "CleanupEnd", "PProgress", "MProgress", "CloseStart",
             "Image", "Sched", "FReaderClose"}
 TSkip ==
   /\ l <= N /\ Ev.ev \in Ignored /\ l' = l + 1
@@ -225,7 +230,7 @@ TOpenReturn ==
   /\ Judge(IF Ev.err = ""
            THEN (IF RecK = {} THEN {"C03_recovered_not_prefix"} ELSE {})
                 \cup (IF RecK # {} /\ Max(RecK) < AckMax THEN {"C02_acked_lost_by_recovery"} ELSE {})
-           ELSE (IF cnt.snapsDone > 0 /\ ~tv.mem THEN {"C03_open_failed"} ELSE {})
+           ELSE (IF cnt.snapsDone > 0 /\ ~tv.mem /\ ~tv.openfault THEN {"C03_open_failed"} ELSE {})
                 \* OpenWriter gave up: it must not keep the directory lock (Lock seen, no Unlock)
                 \cup (IF life.lock THEN {"C14_failed_open_keeps_the_lock", "C11_lock_not_released"} ELSE {}))
 
@@ -234,7 +239,8 @@ TOpenCall ==
   /\ Step("OpenCall")
   /\ pol' = [live |-> <<>>, deletable |-> {}, liveSegs |-> <<>>, known |-> {}]
   /\ root' = NoSnap
-  /\ UNCHANGED <<fsnp, fseg, inst, rd, life, cnt, viol, tv>> /\ UNCHANGED Ghosts /\ UNCHANGED Unused
+  /\ tv' = [tv EXCEPT !.openfault = FALSE]
+  /\ UNCHANGED <<fsnp, fseg, inst, rd, life, cnt, viol>> /\ UNCHANGED Ghosts /\ UNCHANGED Unused
 
 TInvoke ==
   /\ Step("Invoke")
@@ -356,8 +362,15 @@ TPersistEnd ==
 TLoadEnd ==
   /\ Step("LoadEnd")
   /\ inst' = IF Ev.err = "" /\ Ev.kind = ".seg" THEN NewInst(inst, Ev.h, Ev.id) ELSE inst
-  /\ UNCHANGED <<root, fsnp, fseg, pol, rd, life, cnt, tv>> /\ UNCHANGED Ghosts /\ UNCHANGED Unused
+  /\ tv' = [tv EXCEPT !.openfault = @ \/ (Ev.err = "injected" /\ ~life.up)]
+  /\ UNCHANGED <<root, fsnp, fseg, pol, rd, life, cnt>> /\ UNCHANGED Ghosts /\ UNCHANGED Unused
   /\ Judge({})
+
+TListEnd ==
+  /\ Step("ListEnd")
+  /\ tv' = [tv EXCEPT !.openfault = @ \/ (Ev.err = "injected" /\ ~life.up)]
+  /\ viol' = viol
+  /\ UNCHANGED <<root, fsnp, fseg, pol, inst, rd, life, cnt>> /\ UNCHANGED Ghosts /\ UNCHANGED Unused
 
 THandleClose ==
   /\ Step("HandleClose")
@@ -568,7 +581,7 @@ TCrash ==
 
 TraceNext ==
   \/ TReset0 \/ TReset \/ TSkip \/ TPrepared \/ TPGrab \/ TMWake \/ TMergeTask \/ TOpenReturn \/ TOpenCall \/ TInvoke \/ TIntroBatch \/ TIntroMerge \/ TIntroPersist
-  \/ TRootLoad \/ TRootNil \/ TReturn \/ TCallback \/ TPersistBegin \/ TPersistEnd \/ TLoadEnd \/ THandleClose
+  \/ TRootLoad \/ TRootNil \/ TReturn \/ TCallback \/ TPersistBegin \/ TPersistEnd \/ TLoadEnd \/ TListEnd \/ THandleClose
   \/ TCommit \/ TRemoveEnd \/ TReaderOpen \/ TRootObs \/ TReaderObs \/ TReaderClose \/ TAsyncError \/ TPResult
   \/ TFReaderCall \/ TFReaderOpen \/ TFReaderObs \/ TPolicyOverlap
   \/ TCloseCall \/ TLock \/ TUnlock \/ TCloseReturn \/ TReopened \/ TStuck \/ TSecondOpen \/ TRecovered \/ TCrash
